@@ -59,6 +59,11 @@ func KeygenTaproot(selfID party.ID, participants []party.ID, threshold int) prot
 
 // Refresh
 func Refresh(config *Config, participants []party.ID) protocol.StartFunc {
+	if err := config.Validate(); err != nil {
+		return func([]byte) (round.Session, error) {
+			return nil, err
+		}
+	}
 	return keygen.StartKeygenCommon(false, config.Curve(), participants, config.Threshold, config.ID, config.PrivateShare, config.PublicKey, config.VerificationShares.Points)
 }
 
@@ -68,6 +73,11 @@ func Refresh(config *Config, participants []party.ID) protocol.StartFunc {
 //
 // See: https://github.com/bitcoin/bips/blob/master/bip-0340.mediawiki#specification
 func RefreshTaproot(config *TaprootConfig, participants []party.ID) protocol.StartFunc {
+	if err := config.Validate(); err != nil {
+		return func([]byte) (round.Session, error) {
+			return nil, err
+		}
+	}
 	publicKey, err := curve.Secp256k1{}.LiftX(config.PublicKey)
 	if err != nil {
 		return func([]byte) (round.Session, error) {
@@ -102,6 +112,11 @@ func RefreshTaproot(config *TaprootConfig, participants []party.ID) protocol.Sta
 //
 // Differences stemming from this change are commented throughout the protocol.
 func Sign(config *Config, signers []party.ID, messageHash []byte) protocol.StartFunc {
+	if err := config.Validate(); err != nil {
+		return func([]byte) (round.Session, error) {
+			return nil, err
+		}
+	}
 	return sign.StartSignCommon(false, config, signers, messageHash)
 }
 
@@ -111,6 +126,11 @@ func Sign(config *Config, signers []party.ID, messageHash []byte) protocol.Start
 //
 // See: https://github.com/bitcoin/bips/blob/master/bip-0340.mediawiki
 func SignTaproot(config *TaprootConfig, signers []party.ID, messageHash []byte) protocol.StartFunc {
+	if err := config.Validate(); err != nil {
+		return func([]byte) (round.Session, error) {
+			return nil, err
+		}
+	}
 	publicKey, err := curve.Secp256k1{}.LiftX(config.PublicKey)
 	if err != nil {
 		return func([]byte) (round.Session, error) {
